@@ -81,21 +81,21 @@ inductive Err
 def errPrefix : Bytes := ([0x6f,0x72,0x67,0x2e,0x66,0x72,0x65,0x65,0x64,0x65,0x73,0x6b,0x74,0x6f,0x70,0x2e,0x44,0x42,0x75,0x73,0x2e,0x45,0x72,0x72,0x6f,0x72,0x2e] : Bytes)
 
 def Err.name : Err → Bytes
-  | .failed => errPrefix ++ ascii' "Failed"
-  | .nameHasNoOwner => errPrefix ++ ascii' "NameHasNoOwner"
-  | .accessDenied => errPrefix ++ ascii' "AccessDenied"
-  | .limitsExceeded => errPrefix ++ ascii' "LimitsExceeded"
-  | .invalidArgs => errPrefix ++ ascii' "InvalidArgs"
-  | .unknownMethod => errPrefix ++ ascii' "UnknownMethod"
-  | .unknownInterface => errPrefix ++ ascii' "UnknownInterface"
-  | .matchRuleNotFound => errPrefix ++ ascii' "MatchRuleNotFound"
-  | .matchRuleInvalid => errPrefix ++ ascii' "MatchRuleInvalid"
-  | .noReply => errPrefix ++ ascii' "NoReply"
-  | .notSupported => errPrefix ++ ascii' "NotSupported"
-  | .unknownObject => errPrefix ++ ascii' "UnknownObject"
-  | .serviceUnknown => errPrefix ++ ascii' "ServiceUnknown"
-  | .unknownProperty => errPrefix ++ ascii' "UnknownProperty"
-  | .propertyReadOnly => errPrefix ++ ascii' "PropertyReadOnly"
+  | .failed => errPrefix ++ (/- "Failed" -/ [0x46,0x61,0x69,0x6c,0x65,0x64] : Bytes)
+  | .nameHasNoOwner => errPrefix ++ (/- "NameHasNoOwner" -/ [0x4e,0x61,0x6d,0x65,0x48,0x61,0x73,0x4e,0x6f,0x4f,0x77,0x6e,0x65,0x72] : Bytes)
+  | .accessDenied => errPrefix ++ (/- "AccessDenied" -/ [0x41,0x63,0x63,0x65,0x73,0x73,0x44,0x65,0x6e,0x69,0x65,0x64] : Bytes)
+  | .limitsExceeded => errPrefix ++ (/- "LimitsExceeded" -/ [0x4c,0x69,0x6d,0x69,0x74,0x73,0x45,0x78,0x63,0x65,0x65,0x64,0x65,0x64] : Bytes)
+  | .invalidArgs => errPrefix ++ (/- "InvalidArgs" -/ [0x49,0x6e,0x76,0x61,0x6c,0x69,0x64,0x41,0x72,0x67,0x73] : Bytes)
+  | .unknownMethod => errPrefix ++ (/- "UnknownMethod" -/ [0x55,0x6e,0x6b,0x6e,0x6f,0x77,0x6e,0x4d,0x65,0x74,0x68,0x6f,0x64] : Bytes)
+  | .unknownInterface => errPrefix ++ (/- "UnknownInterface" -/ [0x55,0x6e,0x6b,0x6e,0x6f,0x77,0x6e,0x49,0x6e,0x74,0x65,0x72,0x66,0x61,0x63,0x65] : Bytes)
+  | .matchRuleNotFound => errPrefix ++ (/- "MatchRuleNotFound" -/ [0x4d,0x61,0x74,0x63,0x68,0x52,0x75,0x6c,0x65,0x4e,0x6f,0x74,0x46,0x6f,0x75,0x6e,0x64] : Bytes)
+  | .matchRuleInvalid => errPrefix ++ (/- "MatchRuleInvalid" -/ [0x4d,0x61,0x74,0x63,0x68,0x52,0x75,0x6c,0x65,0x49,0x6e,0x76,0x61,0x6c,0x69,0x64] : Bytes)
+  | .noReply => errPrefix ++ (/- "NoReply" -/ [0x4e,0x6f,0x52,0x65,0x70,0x6c,0x79] : Bytes)
+  | .notSupported => errPrefix ++ (/- "NotSupported" -/ [0x4e,0x6f,0x74,0x53,0x75,0x70,0x70,0x6f,0x72,0x74,0x65,0x64] : Bytes)
+  | .unknownObject => errPrefix ++ (/- "UnknownObject" -/ [0x55,0x6e,0x6b,0x6e,0x6f,0x77,0x6e,0x4f,0x62,0x6a,0x65,0x63,0x74] : Bytes)
+  | .serviceUnknown => errPrefix ++ (/- "ServiceUnknown" -/ [0x53,0x65,0x72,0x76,0x69,0x63,0x65,0x55,0x6e,0x6b,0x6e,0x6f,0x77,0x6e] : Bytes)
+  | .unknownProperty => errPrefix ++ (/- "UnknownProperty" -/ [0x55,0x6e,0x6b,0x6e,0x6f,0x77,0x6e,0x50,0x72,0x6f,0x70,0x65,0x72,0x74,0x79] : Bytes)
+  | .propertyReadOnly => errPrefix ++ (/- "PropertyReadOnly" -/ [0x50,0x72,0x6f,0x70,0x65,0x72,0x74,0x79,0x52,0x65,0x61,0x64,0x4f,0x6e,0x6c,0x79] : Bytes)
 
 /-! ### message accessors and builders -/
 
